@@ -9,6 +9,7 @@
 #define GS_KMAX 1
 #define GS_SPL 4
 #define GS_NO_TABLES
+#define GS_ABS_ONLY
 #include "scan_common.h"
 
 size_t g_len0;         /* ghost: spelling bytes already collected (0, or 1 for the leading '.') */
